@@ -19,12 +19,15 @@ theorem getElem?_set_cases {α} {l : List α} {i j : Nat} {a b : α} (h : l[j]? 
     exact ⟨hij, by rw [List.getElem?_set_ne hij]; exact h⟩
 
 /-- The tracked call (slot `j` of connection `c`, which held `k`) is still there in `s'`: not
-cancelled, its connection's peer still present, started if it was, same true outcome, what was
-written only extended, what was received only grown. -/
+cancelled, its connection's peer still present, started if it was, same handler's outcome, what
+was written only extended, what was received only grown; past its response head if it was; and cut
+by the request timeout only if it already was, or had not reached its response head. -/
 def KeptIn (s' : State) (c j : Nat) (k : Call) : Prop :=
   ∃ cn' k', s'.conns[c]? = some cn' ∧ cn'.calls[j]? = some k' ∧ k'.cancelled = false
     ∧ cn'.peerGone = false ∧ (k.started = true → k'.started = true) ∧ k'.plan = k.plan
     ∧ (∃ more, k'.sent = k.sent ++ more) ∧ k.recv ≤ k'.recv
+    ∧ (k.headDone = true → k'.headDone = true)
+    ∧ (k'.expired = true → k.expired = true ∨ k.headDone = false)
 
 /-- a guarded rewrite of one connection that leaves `calls`, `peerGone` alone -/
 theorem track_updConn {s s' : State} {c' c j : Nat} {g : Conn → Bool} {f : Conn → Conn}
@@ -67,7 +70,8 @@ theorem step_keeps_call {s s' : State} {l : Label} {c j : Nat} {cn : Conn} {k : 
     KeptIn s' c j k := by
   have same : ∀ cn', s'.conns[c]? = some cn' → cn'.calls[j]? = some k → cn'.peerGone = cn.peerGone →
       KeptIn s' c j k :=
-    fun cn' h1 h2 h3 => ⟨cn', k, h1, h2, hcan, h3.trans hpg, id, rfl, ⟨[], by simp⟩, Nat.le_refl _⟩
+    fun cn' h1 h2 h3 => ⟨cn', k, h1, h2, hcan, h3.trans hpg, id, rfl, ⟨[], by simp⟩, Nat.le_refl _,
+      id, Or.inl⟩
   have viaConn : ∀ {c' : Nat} {g : Conn → Bool} {f : Conn → Conn},
       updConn s c' g f = some s' → (∀ x, (f x).calls = x.calls) →
       (∀ x, (f x).peerGone = x.peerGone) → KeptIn s' c j k := fun hu h1 h2 => by
@@ -76,13 +80,15 @@ theorem step_keeps_call {s s' : State} {l : Label} {c j : Nat} {cn : Conn} {k : 
   have viaCall : ∀ {c' j' : Nat} {g : Conn → Call → Bool} {f : Call → Call},
       updCall s c' j' g f = some s' →
       (∀ x, g cn x = true → x.cancelled = false → (f x).cancelled = false ∧ (x.started = true → (f x).started = true)
-        ∧ (f x).plan = x.plan ∧ (∃ more, (f x).sent = x.sent ++ more) ∧ x.recv ≤ (f x).recv) →
+        ∧ (f x).plan = x.plan ∧ (∃ more, (f x).sent = x.sent ++ more) ∧ x.recv ≤ (f x).recv
+        ∧ (x.headDone = true → (f x).headDone = true)
+        ∧ ((f x).expired = true → x.expired = true ∨ x.headDone = false)) →
       KeptIn s' c j k :=
     fun hu hf => by
     obtain ⟨cn', k', a, b, d, e⟩ := track_updCall hu hc hk
     rcases e with ⟨_, _, hgd, rfl⟩ | ⟨_, rfl⟩
-    · obtain ⟨f1, f2, f3, f4, f5⟩ := hf k hgd hcan
-      exact ⟨cn', _, a, b, f1, d.trans hpg, f2, f3, f4, f5⟩
+    · obtain ⟨f1, f2, f3, f4, f5, f6, f7⟩ := hf k hgd hcan
+      exact ⟨cn', _, a, b, f1, d.trans hpg, f2, f3, f4, f5, f6, f7⟩
     · exact same cn' a b d
   cases l <;> simp only [step] at h
   case offer =>
@@ -154,34 +160,46 @@ theorem step_keeps_call {s s' : State} {l : Label} {c j : Nat} {cn : Conn} {k : 
   case hsDone c' => exact viaConn h (fun _ => rfl) (fun _ => rfl)
   case final c' => exact viaConn h (fun _ => rfl) (fun _ => rfl)
   case permit c' j' =>
-    exact viaCall h (fun x _ hx => ⟨hx, id, rfl, ⟨[], by simp⟩, Nat.le_refl _⟩)
+    exact viaCall h (fun x _ hx => ⟨hx, id, rfl, ⟨[], by simp⟩, Nat.le_refl _, id, Or.inl⟩)
   case reqSend c' j' =>
-    exact viaCall h (fun x _ hx => ⟨hx, id, rfl, ⟨[], by simp⟩, Nat.le_refl _⟩)
+    exact viaCall h (fun x _ hx => ⟨hx, id, rfl, ⟨[], by simp⟩, Nat.le_refl _, id, Or.inl⟩)
+  case deadlineTick c' j' =>
+    split at h
+    · exact viaCall h (fun x _ hx => ⟨hx, id, rfl, ⟨[], by simp⟩, Nat.le_refl _, id, Or.inl⟩)
+    · cases h
+  case expire c' j' =>
+    -- the one step by which the server itself ends a call: only before the response head
+    split at h
+    · refine viaCall h (fun x hg hx => ⟨hx, id, rfl, ⟨_, rfl⟩, Nat.le_refl _, id, fun _ => ?_⟩)
+      simp only [Bool.and_eq_true, Bool.not_eq_true'] at hg
+      exact Or.inr hg.1.2
+    · cases h
   case cancel c' j' =>
     obtain ⟨cn', k', a, b, d, e⟩ := track_updCall h hc hk
     rcases e with ⟨rfl, rfl, _, _⟩ | ⟨_, rfl⟩
     · exact absurd rfl hl1
     · exact same cn' a b d
   case callStart c' j' =>
-    exact viaCall h (fun x _ hx => ⟨hx, fun _ => rfl, rfl, ⟨[], by simp⟩, Nat.le_refl _⟩)
+    exact viaCall h (fun x _ hx => ⟨hx, fun _ => rfl, rfl, ⟨[], by simp⟩, Nat.le_refl _, id, Or.inl⟩)
   case produce c' j' =>
     refine viaCall h (fun x _ hx => ?_)
     unfold Call.produce
     split
-    · exact ⟨hx, id, rfl, ⟨_, rfl⟩, Nat.le_refl _⟩
-    · exact ⟨hx, id, rfl, ⟨[], by simp⟩, Nat.le_refl _⟩
+    · exact ⟨hx, id, rfl, ⟨_, rfl⟩, Nat.le_refl _, fun _ => rfl, Or.inl⟩
+    · exact ⟨hx, id, rfl, ⟨[], by simp⟩, Nat.le_refl _, id, Or.inl⟩
   case deliver c' j' =>
-    exact viaCall h (fun x _ hx => ⟨hx, id, rfl, ⟨[], by simp⟩, Nat.le_succ _⟩)
+    exact viaCall h (fun x _ hx => ⟨hx, id, rfl, ⟨[], by simp⟩, Nat.le_succ _, id, Or.inl⟩)
 
 theorem KeptIn.self {s : State} {c j : Nat} {cn : Conn} {k : Call}
     (hc : s.conns[c]? = some cn) (hk : cn.calls[j]? = some k)
     (hcan : k.cancelled = false) (hpg : cn.peerGone = false) : KeptIn s c j k :=
-  ⟨cn, k, hc, hk, hcan, hpg, id, rfl, ⟨[], by simp⟩, Nat.le_refl _⟩
+  ⟨cn, k, hc, hk, hcan, hpg, id, rfl, ⟨[], by simp⟩, Nat.le_refl _, id, Or.inl⟩
 
-/-- the server's own steps never cancel a call or make a peer leave, so a tracked call is kept
-along any run of internal steps -/
-theorem run_keeps_call {ls : List Label} : ∀ {s s' : State} {c j : Nat} {k : Call},
-    (∀ l ∈ ls, l.internal = true) → run s ls = some s' → KeptIn s c j k → KeptIn s' c j k := by
+/-- a tracked call is kept along ANY run — the server's own steps, the clock (age and deadline
+ticks), the signal, other peers — in which its caller neither cancels it nor leaves -/
+theorem run_keeps_call_of {ls : List Label} : ∀ {s s' : State} {c j : Nat} {k : Call},
+    (∀ l ∈ ls, l ≠ .cancel c j ∧ l ≠ .peerDrop c) → run s ls = some s' → KeptIn s c j k →
+    KeptIn s' c j k := by
   induction ls with
   | nil => intro s s' c j k _ h hk; simp only [run, Option.some.injEq] at h; subst h; exact hk
   | cons l ls ih =>
@@ -189,15 +207,28 @@ theorem run_keeps_call {ls : List Label} : ∀ {s s' : State} {c j : Nat} {k : C
     simp only [run] at h
     split at h
     · rename_i s1 hs1
-      obtain ⟨cn1, k1, a1, a2, a3, a4, a5, a6, ⟨m1, a7⟩, a8⟩ := hkept
-      have hi := hall l List.mem_cons_self
-      have hl1 : l ≠ .cancel c j := by intro e; subst e; simp [Label.internal] at hi
-      have hl2 : l ≠ .peerDrop c := by intro e; subst e; simp [Label.internal] at hi
-      obtain ⟨cn2, k2, b1, b2, b3, b4, b5, b6, ⟨m2, b7⟩, b8⟩ :=
+      obtain ⟨cn1, k1, a1, a2, a3, a4, a5, a6, ⟨m1, a7⟩, a8, a9, a10⟩ := hkept
+      obtain ⟨hl1, hl2⟩ := hall l List.mem_cons_self
+      obtain ⟨cn2, k2, b1, b2, b3, b4, b5, b6, ⟨m2, b7⟩, b8, b9, b10⟩ :=
         step_keeps_call hs1 a1 a2 a3 a4 hl1 hl2
       refine ih (fun x hx => hall x (List.mem_cons_of_mem _ hx)) h
         ⟨cn2, k2, b1, b2, b3, b4, fun h0 => b5 (a5 h0), b6.trans a6,
-          ⟨m1 ++ m2, by rw [b7, a7, List.append_assoc]⟩, Nat.le_trans a8 b8⟩
+          ⟨m1 ++ m2, by rw [b7, a7, List.append_assoc]⟩, Nat.le_trans a8 b8,
+          fun h0 => b9 (a9 h0), fun h0 => ?_⟩
+      rcases b10 h0 with hx | hx
+      · exact a10 hx
+      · cases hh : k.headDone with
+        | false => exact Or.inr rfl
+        | true => rw [a9 hh] at hx; cases hx
     · cases h
+
+/-- the server's own steps never cancel a call or make a peer leave, so a tracked call is kept
+along any run of internal steps -/
+theorem run_keeps_call {ls : List Label} {s s' : State} {c j : Nat} {k : Call}
+    (hall : ∀ l ∈ ls, l.internal = true) (h : run s ls = some s') (hk : KeptIn s c j k) :
+    KeptIn s' c j k := by
+  refine run_keeps_call_of (fun l hl => ⟨?_, ?_⟩) h hk
+  · intro e; have := hall l hl; subst e; simp [Label.internal] at this
+  · intro e; have := hall l hl; subst e; simp [Label.internal] at this
 
 end Shutdown
